@@ -152,6 +152,7 @@ def generate(rng, tier):
                 for _ in range(20):
                     A = gen_matrix(g, n, fam, 'f64')
                     if nonsingular(A, n): break
+                if not nonsingular(A, n): continue   # exactly singular float systems are outside the quantifier: inf/nan patterns are not compared
                 sc = 10.0 ** g.range(-6, 6) if g.chance(1, 2) else 1.0
                 A = [x * sc for x in A]
                 b = [fval(g, sc) for _ in range(n)]
